@@ -204,6 +204,10 @@ Fixpoint mk_iter (i : IT) (ctx : env) : itst :=
       else SCfg 0 (cfg_lo ck lo (val_count (cval ctx))) (cfg_hi ck hi (val_count (cval ctx)))
   end.
 
+(* make_iter failed (try_configure): the error code *)
+Fixpoint its_fail (its : itst) : option nat :=
+  match its with SFail k => Some k | SEnum _ js => its_fail js | _ => None end.
+
 Fixpoint noncons_ok (i : IT) : bool :=
   match i with
   | IRep _ _ _ | ISep _ _ _ _ _ _ | IRepCfg _ _ _ _ => false
@@ -727,12 +731,18 @@ Fixpoint go (n : nat) (m : mode) (g : G) (ctx : env) (s : st) {struct n} : outco
       | (res, _, _, s1) => (res, s1)
       end
   | CollectExactly k i =>
+      match k, its_fail (mk_iter i ctx) with
+      | 0, Some e =>
+          (* make_iter itself fails (try_configure); with N = 0 no `next` is ever called, so the failure has to be taken here *)
+          run m (TryMap PFalse FId e Empty) ctx s
+      | _, _ =>
       match drive run (S k) m i ctx (mk_iter i ctx) (Some k) (fun _ => false) 0 [] s with
       | (Ok _, acc, false, s1) => (Ok (bindv m (VList (rev (map item_val acc)))), s1)
       | (Ok _, _, true, s1) =>                     (* the iterator ended early *)
           if q_exact_noalt Q then (Err, s1)        (* F10: Err without recording an alt *)
           else (Err, fail_here [pSomethingElse] s1)
       | (res, _, _, s1) => (res, s1)
+      end
       end
   | Foldl a i k =>
       match run m a ctx s with
